@@ -593,6 +593,9 @@ class EditsArm(Arm):
     budget = {"quick": 6000, "thorough": 100000}
     min_per_shard = 300
     required_labels = ("longer_identifier_present", "rhs_only", "lhs_only", "update_template")
+    #: (shards, executions per shard) of coverage-guided fuzzing (atheris) over the same strategy and oracle
+    fuzz = {"quick": (2, 1500), "thorough": (8, 40000)}
+    fuzz_modules = ("pyrates.backend.parser", "pyrates.frontend.template.operator")
 
     def strategy(self, ctx):
         @st.composite
